@@ -30,6 +30,7 @@ type SpecEnv struct {
 	oldHeap map[string]*Term
 	oldLW   *Term
 	fr      *Frame // for locals (loop invariants)
+	fr2     *Frame // the frame of an inlined callee whose loop the clauses were supplied for (names not found in fr)
 	facts   []*Term // memory-safety facts about references read while evaluating
 	depth   int
 	parent  *SpecEnv // macros see the identifiers of the clause that uses them
@@ -242,6 +243,22 @@ func constValTerm(c constant.Value, T types.Type) *Term {
 }
 
 func (e *SpecEnv) local(name string) (SVal, bool) {
+	if v, ok := e.local1(name); ok {
+		return v, true
+	}
+	if e.fr2 != nil {
+		saved := e.fr
+		e.fr = e.fr2
+		e.fr2 = nil
+		v, ok := e.local1(name)
+		e.fr2 = e.fr
+		e.fr = saved
+		return v, ok
+	}
+	return SVal{}, false
+}
+
+func (e *SpecEnv) local1(name string) (SVal, bool) {
 	if e.fr == nil {
 		return SVal{}, false
 	}
